@@ -103,6 +103,7 @@ type c11Env struct {
 	q1, q2 *json.FieldQuery
 	q3     *json.FieldQuery // the names of q2 in the same order, but flat
 	path   *json.Path
+	slot   []interface{} // one interface slot that several calls of a history encode (its address is what matters)
 	encBuf bytes.Buffer
 	enc    *json.Encoder
 	decIn  bytes.Buffer
@@ -115,6 +116,7 @@ func newC11Env() *c11Env {
 	e.q2, _ = json.BuildFieldQuery("m", json.BuildSubFieldQuery("p").Fields("a"))
 	e.q3, _ = json.BuildFieldQuery("m", "p", "a")
 	e.path, _ = json.CreatePath("$.a.b")
+	e.slot = make([]interface{}, 1)
 	e.enc = json.NewEncoder(&e.encBuf)
 	e.dec = json.NewDecoder(&e.decIn)
 	return e
@@ -244,6 +246,31 @@ func c11Calls() []c11Call {
 			}{I: &c11Ctx{}}
 			err := json.NewDecoder(strings.NewReader(`{"A":1,"I":2}`)).Decode(&v)
 			return fmt.Sprintf("%+v %+v %v", v.A, v.I, err)
+		}},
+		{"Marshal(shared interface slot holding a failing marshaler)", func(e *c11Env) string {
+			e.slot[0] = c11Err{}
+			defer func() { e.slot[0] = nil }()
+			return r2(json.Marshal(e.slot))
+		}},
+		{"Marshal(shared interface slot holding a value whose encoding is unsupported)", func(e *c11Env) string {
+			e.slot[0] = make(chan int)
+			defer func() { e.slot[0] = nil }()
+			return r2(json.MarshalIndent(e.slot, "", " "))
+		}},
+		{"Marshal(1100-deep acyclic value that ends in the shared interface slot)", func(e *c11Env) string {
+			// beyond 1000 nested frames the encoder compares addresses with the ones it remembers: what an
+			// earlier call remembered must be forgotten
+			e.slot[0] = 1
+			defer func() { e.slot[0] = nil }()
+			var v interface{} = e.slot
+			for i := 0; i < 1100; i++ {
+				v = []interface{}{v}
+			}
+			b, err := json.Marshal(v)
+			if err != nil {
+				return "error:" + util.ErrClass(err.Error())
+			}
+			return fmt.Sprintf("%d bytes, fnv %x", len(b), fnvHash(b))
 		}},
 		{"Encoder.Encode", func(e *c11Env) string {
 			e.encBuf.Reset()
@@ -531,7 +558,7 @@ func c11BFS(c *work.Ctx) {
 	if !c.Quick() {
 		maxDepth = 5
 	}
-	maxStates := 3000
+	maxStates := 6000
 	if !c.Quick() {
 		maxStates = 20000
 	}
